@@ -391,10 +391,23 @@ void Exec::step(const Step &s) {
     return;
   }
   if (t == "adv") {
+    long adv_ms = s.N(0, 0);
+    if (s.N(1, 0) > 0) {
+      // to one of the deadlines the model knows (a reply slot's, an activation's), give or take a millisecond:
+      // expiry and the competing event at the same instant
+      std::vector<int64_t> dl;
+      for (auto &p : md.pending) if (!p.doomed && p.deadline_us > K->now_us) dl.push_back(p.deadline_us);
+      if (md.service_start_timeout_ms >= 0) for (auto &kv : md.activations) { int64_t d = kv.second.started_us + md.service_start_timeout_ms * 1000; if (d > K->now_us) dl.push_back(d); }
+      if (!dl.empty()) {
+        int64_t d = dl[(size_t)(s.N(1) - 1) % dl.size()];
+        long t2 = (long)((d - K->now_us) / 1000) + s.N(2, 0);
+        if (t2 > 0 && t2 < 3600 * 1000) { adv_ms = t2; counters["probe:clock_moved_to_a_deadline"]++; }
+      }
+    }
     if (!md.activatable.empty()) {
       // C19: the clock moves between quiescent points, so that what a start timeout hits is unambiguous
       w.quiesce(); resolve_choices(); check_activation_starts();
-      w.advance_ms(s.N(0, 0)); md.now_us = K->now_us;
+      w.advance_ms(adv_ms); md.now_us = K->now_us;
       w.quiesce(); resolve_choices();
       md.event++;
       for (auto &n : md.overdue_activations()) { md.activation_failed(n, "timeout"); counters["probe:service_start_timeout_fired"]++; }
@@ -406,8 +419,22 @@ void Exec::step(const Step &s) {
       for (auto &cl : w.clients) if (cl.connected && !cl.closed) w.deliver(cl.idx, -1);
       w.quiesce();
       resolve_choices();
+      w.advance_ms(adv_ms); md.now_us = K->now_us;
+      w.quiesce();
+      resolve_choices();
+      // surplus descriptors are held "within ... the pending-descriptor timeout": the clock only moves here, between
+      // quiescent points, so the deadline is exact - one timeout after the bus read the surplus, however much more
+      // the connection has sent since (more surplus does not buy more time)
+      long tmo = lim_cfg.pending_fd_timeout >= 0 ? lim_cfg.pending_fd_timeout : 150000;
+      for (auto &kv : fd_surplus) {
+        bw::Client &sc = w.C(kv.first);
+        if (K->now_us >= kv.second + (tmo + 1) * 1000 && !sc.closed && !sc.saw_eof && w.bus_side_connected(kv.first))
+          fail("oracle:C15:surplus-held", "c%d attached more descriptors than its messages announced %lld ms ago (pending_fd_timeout %ld ms), has kept sending, and is still connected",
+               kv.first, (long long)((K->now_us - kv.second) / 1000), tmo);
+      }
+      return;
     }
-    w.advance_ms(s.N(0, 0)); md.now_us = K->now_us; return;
+    w.advance_ms(adv_ms); md.now_us = K->now_us; return;
   }
   if (t == "oombus") {
     // process the operation just issued, with the allocation number oom.k of this step failing
@@ -575,7 +602,23 @@ void Exec::step(const Step &s) {
     std::vector<int> fds;
     if (nf > 0 || fd_delta != 0) {
       // descriptors: nf attached (distinct anonymous files), the header announces nf + fd_delta
-      if (fd_surplus_sent.count(ci) || md.conns[(size_t)ci].expect_closed || c.closed) return;
+      if (md.conns[(size_t)ci].expect_closed || c.closed) return;
+      bool more_surplus = false;
+      if (fd_surplus_sent.count(ci)) {
+        // a connection that already has surplus descriptors pending may go on sending complete messages with yet
+        // more surplus (announcing none): its deadline stays where it was.  Only while that deadline has not passed,
+        // only when the bus has read the first surplus, and not under a per-connection descriptor limit (the bus
+        // would stop reading and what it then delivers is a matter of timing)
+        long tmo = lim_cfg.pending_fd_timeout >= 0 ? lim_cfg.pending_fd_timeout : 150000;
+        bool negotiated0 = (size_t)ci < fdpass_req.size() && fdpass_req[(size_t)ci];
+        if (plan.prop != "C15" || !fd_surplus.count(ci) || K->now_us + 2000 >= fd_surplus[ci] + tmo * 1000 || lim_cfg.max_incoming_unix_fds >= 0 || nf <= 0 || !negotiated0 || c.saw_eof || !w.bus_side_connected(ci)) return;
+        long max_msg0 = lim_cfg.max_message_unix_fds >= 0 ? lim_cfg.max_message_unix_fds : 16;
+        if (nf > max_msg0) nf = max_msg0;
+        fd_delta = -nf;
+        more_surplus = true;
+        counters["probe:more_surplus_fds_while_pending"]++;
+        tr.ev("more surplus c%d nf=%ld", ci, nf);
+      }
       long hdr = nf + fd_delta < 0 ? 0 : nf + fd_delta;
       if (hdr > 0) m.set_field(wire::F_UNIX_FDS, wire::Value::u32((uint32_t)hdr));
       std::vector<FdIdent> ids;
@@ -611,7 +654,7 @@ void Exec::step(const Step &s) {
       }
       ids.resize((size_t)hdr);
       fd_idents[{ci, m.serial}] = ids;
-      if (hdr < nf) { fd_surplus_sent[ci] = m.serial; counters["probe:surplus_fds_sent"]++; }   // the clock of pending_fd_timeout starts when the bus has read it (on_dispatch)
+      if (hdr < nf && !more_surplus) { fd_surplus_sent[ci] = m.serial; counters["probe:surplus_fds_sent"]++; }   // the clock of pending_fd_timeout starts when the bus has read it (on_dispatch)
     }
     {
       wire::Limits wl;
